@@ -138,6 +138,10 @@ class BaseIntervalScorer(BaseEstimator):
         """
         self.check_is_fitted()
         cuts = as_2d_array(cuts, vector_as_column=False)
+        if np.issubdtype(cuts.dtype, np.unsignedinteger):
+            # Differences of unsigned integers wrap around instead of going negative,
+            # such that decreasing cuts would pass the ordering checks.
+            cuts = cuts.astype(np.int64)
         cuts = self._check_cuts(cuts)
         n_samples = len(self._X)
         if np.any(cuts[:, 0] < 0) or np.any(cuts[:, -1] > n_samples):
